@@ -4,7 +4,9 @@
 (* real directory, each logged with the projected abstract state before    *)
 (* and after it (vf/workspace.py: abstraction function).  Event:           *)
 (*  {id, op: <<name, args..>>, pre, post, exc}  with states               *)
-(*  [fs, excl, cache, report, reused, outcome] shaped as in Workspace.tla  *)
+(*  [fs, excl, cache, report, reused, outcome, complete] shaped as in      *)
+(*  Workspace.tla; complete = the cache file left behind is the whole      *)
+(*  document a from-scratch scan would write, up to identifier / timestamp *)
 (*  (cache.ent / fs / report are records keyed by the path names).         *)
 (* The step predicates are the PROPERTIES of Workspace.tla evaluated on    *)
 (* the logged pair - so a scan that re-analyses more than necessary is     *)
@@ -28,6 +30,7 @@ ScanClause(pre, post) ==
     [] \E p \in Paths : (post.cache.ent[p].sum # Absent) # (p \in ContribOf(pre)) -> "CacheListsExactlyTheContributingFiles"
     [] \E p \in ContribOf(pre) : post.cache.ent[p].sum # pre.fs[p] -> "CacheChecksumsAreTheFilesChecksums"
     [] \E p \in ReusedSet(post) : ~(ValidToolCache(pre) /\ pre.cache.ent[p].sum = pre.fs[p] /\ pre.fs[p] # Absent) -> "ReuseOnlyIfUnchangedAndSameVersion"
+    [] (HonestCache(pre) \/ pre.cache.kind \in {"damaged", "none"}) /\ ~post.complete -> "CacheLeftBehindIsTheCompleteReport"
     [] HonestCache(pre) /\ \E p \in Paths : post.report[p] # FreshOf(pre)[p] -> "CachedScanEqualsFreshScan"
     [] pre.cache.kind \in {"damaged", "none"} /\ \E p \in Paths : post.report[p] # FreshOf(pre)[p] -> "DamagedCacheNeverTaintsTheScan"
     [] OTHER -> "none"
